@@ -1,21 +1,25 @@
 #!/bin/bash
 # Run every stored seeded change and every mutant against the check of the property it targets.
-# usage: seedmatrix.sh [tier]   -> prints one line per change: name property exit first-finding
-TIER=${1:-quick}
+# usage: seedmatrix.sh [tier] [regex on the change's name]   -> one line per change: name property exit first-finding
+TIER=${1:-quick}; FILTER=${2:-.}
 cd /verif
-for d in seeded/*/; do
+for d in seeded/C*/; do
   n=$(basename $d); p=${n%%-*}
+  echo "seeded/$n" | grep -qE "$FILTER" || continue
   out=$(tools/seedtest.sh /verif/$d/patch.diff $p $TIER 2>&1)
-  rc=$(echo "$out" | grep -o 'exit=[0-9]*' | head -1)
-  f=$(echo "$out" | grep -m1 '^finding' | cut -c1-140)
+  rc=$(echo "$out" | grep -a -o 'exit=[0-9]*' | head -1)
+  f=$(echo "$out" | grep -a -m1 '^finding' | cut -c1-140)
+  [ -z "$rc" ] && f=$(echo "$out" | grep -a -m1 'PATCH' | cut -c1-140)
   echo "seeded/$n $p $rc $f"
 done
 for m in mutants/*.diff; do
   n=$(basename $m .diff)
+  echo "mutants/$n" | grep -qE "$FILTER" || continue
   p=$(grep -m1 "^$n " mutants/TARGETS | cut -d' ' -f2)
   [ -z "$p" ] && continue
   out=$(tools/seedtest.sh /verif/$m $p $TIER 2>&1)
-  rc=$(echo "$out" | grep -o 'exit=[0-9]*' | head -1)
-  f=$(echo "$out" | grep -m1 '^finding' | cut -c1-140)
+  rc=$(echo "$out" | grep -a -o 'exit=[0-9]*' | head -1)
+  f=$(echo "$out" | grep -a -m1 '^finding' | cut -c1-140)
+  [ -z "$rc" ] && f=$(echo "$out" | grep -a -m1 'PATCH' | cut -c1-140)
   echo "mutants/$n $p $rc $f"
 done
